@@ -24,6 +24,13 @@ class A1(A):
     pass
 
 
+class A2(A):
+    """A caught exception that cannot be printed: str() of it fails (a message template that assumed a payload)."""
+
+    def __str__(self):
+        raise TypeError("unprintable exception")
+
+
 class B(Exception):
     pass
 
@@ -32,7 +39,7 @@ class C(Exception):
     pass
 
 
-KINDS = ("ok", "caught", "sub", "other", "cancelled", "base", "group")
+KINDS = ("ok", "caught", "sub", "other", "cancelled", "base", "group", "unprintable")
 CATCHING = (
     ("class A", lambda: A),
     ("tuple (A,)", lambda: (A,)),
@@ -53,7 +60,7 @@ class C14(Prop):
     rule_text = (
         "one case = (limit 1..4, catching as class/tuple/set/default, delay None/int/float/callable, outcome "
         "sequence of length <= limit+2 over {success, caught, subclass of caught, uncaught, CancelledError, other "
-        "BaseException}, sync or async, attempt durations) + schedule; 'async-sweep' injects one external cancel at "
+        "BaseException, ExceptionGroup, caught exception whose str() fails}, sync or async, attempt durations) + schedule; 'async-sweep' injects one external cancel at "
         "EVERY loop iteration of the fault-free twin; distinct = distinct event-log digest; non-trivial = at least "
         "one retry was taken or a cancel landed in an attempt or a pause"
     )
@@ -89,7 +96,7 @@ class C14(Prop):
         calls = []
         for ci in range(ncalls):
             seq_len = s.draw(limit + 3, "seq-len")
-            seq = [KINDS[s.weighted((4, 10, 4, 2, 2, 2, 1), "outcome")] for _ in range(seq_len)]
+            seq = [KINDS[s.weighted((4, 10, 4, 2, 2, 2, 1, 1), "outcome")] for _ in range(seq_len)]
             durs = [(0, 0, 64, -1)[s.draw(4, "dur")] if is_async else 0 for _ in range(seq_len + 1)]
             calls.append({"outcomes": seq, "durations": durs})
         delay_name = ("none", "float", "int", "callable", "float", "float-zero", "int-zero")[dk]
@@ -114,7 +121,7 @@ class C14(Prop):
         for ci, spec in enumerate(calls):
             seq = spec["outcomes"]
             excs = [{"ok": None, "caught": A((ci, k)), "sub": A1((ci, k)), "other": B((ci, k)),
-                     "cancelled": asyncio.CancelledError(), "base": InjectedBase((ci, k)),
+                     "cancelled": asyncio.CancelledError(), "base": InjectedBase((ci, k)), "unprintable": A2((ci, k)),
                      # a group made only of caught instances is itself caught only if ExceptionGroup is in the caught set
                      "group": ExceptionGroup("several", [A((ci, k)), A1((ci, k))])}[kind] for k, kind in enumerate(seq)]
             per.append({"seq": seq, "durs": spec["durations"], "excs": excs,
